@@ -1253,4 +1253,5 @@ func runC19(prop string, res *Result, pool *DrvPool, r *Rng) {
 		"(c) the same tracebacks against mutated trees (deleted, empty, truncated, shifted, different arity, unparsable, non-Go, directory, another program, no go.mod); every case counts. Distinct by hash of source+arguments / program / mutated source+traceback."
 	runC19a(res, pool, r.Fork())
 	runC19bc(res, pool, r.Fork())
+	runC19c(prop, res, pool, r.Fork())
 }
